@@ -228,3 +228,16 @@ pub proof fn lemma_is_splice(o: Seq<u8>, a: int, b: int, c: Seq<u8>, n: Seq<u8>)
 {
 }
 } // verus!
+verus! {
+/// overwriting part of the filler of a splice is a splice with the updated filler
+pub proof fn lemma_splice_in_filler(o: Seq<u8>, a: int, b: int, f: Seq<u8>, j: int, x: Seq<u8>)
+    requires 0 <= a <= b <= o.len(), 0 <= j, j + x.len() <= f.len(),
+    ensures splice(splice(o, a, b, f), a + j, a + j + x.len(), x) =~= splice(o, a, b, f.subrange(0, j) + x + f.subrange(j + x.len(), f.len() as int)),
+{
+}
+pub proof fn lemma_update_in_filler(o: Seq<u8>, a: int, b: int, f: Seq<u8>, j: int, v: u8)
+    requires 0 <= a <= b <= o.len(), 0 <= j < f.len(),
+    ensures splice(o, a, b, f).update(a + j, v) =~= splice(o, a, b, f.update(j, v)),
+{
+}
+} // verus!
